@@ -67,6 +67,10 @@ def gen(tier, seed, chunk, nch):
                 argv.append(rng.choice(benign))
                 classes.append("benign")
         case = {"decl": d, "argv": argv, "classes": classes}
+        if rng.random() < 0.25:
+            # the parser has been used before: accepted vectors, vectors rejected half-way
+            case["earlier"] = [[rng.choice(benign) if benign and rng.random() < 0.6 else rng.choice(pool)[1]
+                                for _ in range(rng.randint(0, 4))] for _ in range(rng.randint(1, 2))]
         if rng.random() < 0.15:
             case["mode"] = "V"   # parse(std::vector<user_input>) instead of parse(argc, argv)
         cases.append(case)
@@ -78,7 +82,9 @@ def script(cid, case):
 
 
 def evaluate(case, lines, S):
-    line = next((l for l in lines if l.startswith("P ")), None)
+    line = optoracle.judged_line(lines)
+    if case.get("earlier"):
+        S.counters["judged-parse-on-a-parser-with-a-history"] += 1
     if line is None:
         S.inconc.append("no parse line")
         return
